@@ -360,9 +360,9 @@ def run_cases(ctx, n_models, n_states, seed_offset=0, gen_opts=None, legs=True):
 
 
 def correspond(ctx):
-  n_models = ctx.budget(12, 120)
+  n_models = ctx.budget(12, 90)
   cases, dis, fails, hist = run_cases(ctx, n_models, 2)
-  n_lat, dis_lat = run_lattice(ctx, ctx.budget(4, 40))
+  n_lat, dis_lat = run_lattice(ctx, ctx.budget(4, 30))
   dis += dis_lat
   # one representative per key
   seen, uniq = set(), []
@@ -406,7 +406,7 @@ def correspond(ctx):
 
 
 def search(ctx, broken, corr):
-  _, _, fails, _ = run_cases(ctx, ctx.budget(16, 150), 2, seed_offset=1000, legs=False)
+  _, _, fails, _ = run_cases(ctx, ctx.budget(12, 110), 2, seed_offset=1000, legs=False)
   seen, uniq = set(), []
   for f in fails:
     if f['key'] not in seen:
